@@ -8,6 +8,7 @@ import (
 	"path/filepath"
 	"runtime"
 	"strings"
+	"sync"
 
 	"verif/internal/vf"
 )
@@ -130,6 +131,62 @@ func OtherMachines(r *vf.Run) {
 		r.Cell(fmt.Sprintf("processors:%d:%s", n, area))
 	}
 	r.SetExtra("other_processor_counts", "probe area "+area+" held in processes confined to "+strings.Join(ran, ",")+" processors")
+}
+
+// ManyColdStarts: what a process settles once, at start-up - the iteration order of a map walked by an
+// initialiser, a hash seed, where the runtime places things - is a draw; one process (or twenty) sees one
+// draw. The native probe is started thousands of times (its smallest sample for the mapper and colour
+// monitors, the property's area a few hundred times for the others) and every start must hold.
+func ManyColdStarts(r *vf.Run) {
+	probe := os.Getenv("VERIF_NATIVE_PROBE")
+	area := probeArea[r.ID]
+	if probe == "" || area == "" || os.Getenv("VERIF_CHILD") != "" || r.OnlyPhase != "" {
+		return
+	}
+	n := map[string]int{"mappers": 8000, "colour": 4000, "emitter": 300, "header": 100, "rom": 150, "bus": 80, "cpu": 32}[area]
+	if area == "mappers" || area == "colour" {
+		area = "coldstart"
+	}
+	var mu sync.Mutex
+	first, failed, ran := "", 0, 0
+	workers := runtime.NumCPU()
+	var wg sync.WaitGroup
+	for w := 0; w < workers; w++ {
+		wg.Add(1)
+		go func(w int) {
+			defer wg.Done()
+			for i := w; i < n; i += workers {
+				b, err := exec.Command(probe, area).CombinedOutput()
+				mu.Lock()
+				ran++
+				if ee, ok := err.(*exec.ExitError); ok && ee.ExitCode() == 1 {
+					failed++
+					if first == "" {
+						first = fmt.Sprintf("start #%d: the probe reported a violation", i)
+						for _, ln := range strings.Split(string(b), "\n") {
+							if strings.HasPrefix(ln, "probe-violation") || strings.HasPrefix(ln, "panic:") {
+								first = fmt.Sprintf("start #%d: %s", i, ln)
+								break
+							}
+						}
+					}
+				}
+				stop := failed > 0
+				mu.Unlock()
+				if stop {
+					return
+				}
+			}
+		}(w)
+	}
+	wg.Wait()
+	r.Eval(int64(ran))
+	if failed > 0 {
+		r.Fail("in-one-of-many-cold-starts", fmt.Sprintf("%d of %d identical fresh processes: %s", failed, ran, first), map[string]string{"area": area})
+		return
+	}
+	r.CellN("cold-starts:"+area, int64(ran))
+	r.SetExtra("identical_cold_starts", fmt.Sprintf("%d fresh processes ran probe area %s; all held", ran, area))
 }
 
 // ConfigChildren: configurations the library's own source reveals (found by ./check scanning it): a build
